@@ -10,14 +10,19 @@ def execute(run, plans):
     return evs
 
 
-def boundary(bits, signed):
+def boundary(bits, signed, rng=None):
     hi = 2 ** (bits - 1) - 1 if signed else 2 ** bits - 1
     lo = -2 ** (bits - 1) if signed else 0
     pts = {0, 1, 2, 9, 10, 11, 99, 100, 101, hi, hi - 1, lo, lo + 1}
     k = 1
     while 10 ** k <= hi:
-        pts |= {10 ** k - 1, 10 ** k, 10 ** k + 1}
+        pts |= {10 ** k - 1, 10 ** k, 10 ** k + 1, 3 * 10 ** k, 5 * 10 ** k}
+        if rng is not None:      # values strictly inside every decimal length, not only at its ends
+            pts |= {rng.randint(10 ** k, min(hi, 10 ** (k + 1) - 1)) for _ in range(3)}
         k += 1
+    for j in range(1, bits):     # binary boundaries: truncation to a narrower width shows up around powers of two
+        pts |= {2 ** j - 1, 2 ** j, 2 ** j + 1}
+    pts = {p for p in pts if p <= hi}
     if signed:
         pts |= {-p for p in list(pts) if -p >= lo}
     return sorted(p for p in pts if lo <= p <= hi)
@@ -66,7 +71,7 @@ def check(run):
     # (iii) boundary-dense samples of the wide types
     for ty, bits, sg in (("int32", 32, True), ("uint32", 32, False), ("int64", 64, True), ("uint64", 64, False),
                          ("int", 64, True), ("uint", 64, False), ("uintptr", 64, False)):
-        pts = boundary(bits, sg)
+        pts = boundary(bits, sg, run.rng)
         for fn in FNS1:
             for v in pts:
                 plan.append(dict(op="point", fn=fn, ty=ty, v=str(v), lo="0", hi="0"))
@@ -97,7 +102,8 @@ def check(run):
         plan += [U("Tern", v=[1, 2], cond=cond), U("TernCast", v=[1, 2], cond=cond)]
     plan += [U("Zero"), U("ZeroOf", v=[5])]
     plan += [U("IsZero", "int", [0]), U("IsZero", "int", [5]), U("IsZero", "string", [0]), U("IsZero", "string", [1]),
-             U("IsZero", "zeroer-true", [7]), U("IsZero", "zeroer-false", [3])]
+             U("IsZero", "zeroer-true", [7]), U("IsZero", "zeroer-false", [3]), U("IsZero", "zeroer-zero", [0]), U("IsZero", "nilptr-zeroer", [0]),
+             U("IsZero", "ptr-zeroer", [7])]
     plan += [U("RefDeref", v=[5]), U("RefDeref", v=[0]), U("DerefZero", "nil", [9]), U("DerefZero", "ptr", [9])]
     plan += [U("IsNil", k) for k in ("nil-any", "nil-error", "typed-nil-in-any", "value-in-any", "error-value")]
     evs = execute(run, plan)
